@@ -164,6 +164,9 @@ type mediaGen struct {
 	kind      int
 	h264State int
 	prev      []byte
+	// wellFormed: the world's oracle assumes frames of the codec's own grammar (C15), so a sibling frame may
+	// only be an exact repeat: a flipped bit can turn a NAL header into type 24-29 (a stray FU-A/STAP-A payload)
+	wellFormed bool
 }
 
 // next returns the next frame; one frame in twelve is the previous frame again, or differs from it in one
@@ -171,7 +174,11 @@ type mediaGen struct {
 func (g *mediaGen) next(t *core.Tape, mtu int) []byte {
 	if g.prev != nil && g.h264State == 0 && len(g.prev) > 2 && len(g.prev) < 20000 && t.Chance(1, 12) {
 		m := append([]byte(nil), g.prev...)
-		switch t.Intn(3) {
+		how := t.Intn(3)
+		if g.wellFormed {
+			how = 0
+		}
+		switch how {
 		case 1:
 			m[t.Intn(len(m))] ^= 1 << uint(t.Intn(8))
 		case 2:
